@@ -27,8 +27,11 @@ def plan(tier, seed):
     reps = 3 if tier == 'quick' else 60
     for rep in range(reps):
         for proto in ('tlcp', 'tls12', 'tls13'):
-            for mutual in (False, True):
+            # authentication modes: server only; mutual; server only although the client has a certificate configured
+            for mutual in (False, True, 'offered-not-requested'):
                 for depth in (1, 2, 3):
+                    if mutual == 'offered-not-requested' and depth != 1 + rep % 3:
+                        continue
                     units.append({'kind': 'session', 'proto': proto, 'mutual': mutual, 'inter': depth - 1,
                                   'schedules': 4 if tier == 'quick' else 6, 'weight': 3})
         for proto in ('tlcp', 'tls12', 'tls13'):
@@ -146,7 +149,11 @@ def u_session(ctx, u):
     rng = ctx.rng
     proto = T.PROTOS[u['proto']]
     creds = T.Creds(ctx, 'c08-%d' % u['_i'], u['inter'])
-    srv_ctx, cli_ctx = T.pair_ctx(ctx, creds, proto, u['mutual'])
+    if u['mutual'] == 'offered-not-requested':
+        srv_ctx, cli_ctx = T.pair_ctx(ctx, creds, proto, False, client_has_cert=True)
+    else:
+        srv_ctx, cli_ctx = T.pair_ctx(ctx, creds, proto, u['mutual'])
+    turns = ws = rc = None
     for sch in range(u['schedules']):
         seed = rng.randrange(1, 1 << 30)
         short_io = sch != 0
@@ -158,7 +165,7 @@ def u_session(ctx, u):
             ctx.violation('handshake:hang', **cfg)
             T.close_pair(res)
             continue
-        if not ctx.check(s.ret == 1 and c.ret == 1, 'handshake:honest-peers-failed:%s:%s' % (u['proto'], 'mutual' if u['mutual'] else 'server-auth'),
+        if not ctx.check(s.ret == 1 and c.ret == 1, 'handshake:honest-peers-failed:%s:%s' % (u['proto'], {False: 'server-auth', True: 'mutual'}.get(u['mutual'], 'client-certificate-offered-not-requested')),
                          server_ret=s.ret, client_ret=c.ret, **cfg):
             T.close_pair(res)
             continue
